@@ -32,6 +32,10 @@ trusted = ["hand-written model MptModel/Impl/Decode.lean tied to mptcore/convert
            "decode_command.c by harness/drv_codec.c (differential execution, all state fields and the storage compared)"]
 
 
+def generate(chk):
+    c01.generate(chk)
+
+
 def corpus(chk):
     return gen.corpus(id)
 
